@@ -116,3 +116,4 @@ package origins
 //@   assigns heap("E!Int")
 //@   assigns heap("E!Slice")
 //@   ensures !(t.root.schemes == nil && t.root.children == nil)
+//@   ensures forall o *Tree :: o != t ==> o.root.schemes === old(o.root.schemes) && o.root.children === old(o.root.children)
